@@ -85,10 +85,18 @@ class DerivedMatcher(TimestampMatcherBase):
         return '20' + self.result.group('yy')
 
 
+class SubBrkMatcher(StdMatcher):
+    """ a matcher derived from another CONCRETE matcher, overriding its patterns """
+    @property
+    def patterns(self):
+        return [BRK]
+
+
 MATCHERS = {'std': StdMatcher, 'multi': MultiMatcher, 'derived': DerivedMatcher,
-            'loose': LooseMatcher, 'ampm': AmPmMatcher, 'nosec': NoSecMatcher}
+            'loose': LooseMatcher, 'ampm': AmPmMatcher, 'nosec': NoSecMatcher,
+            'subbrk': SubBrkMatcher}
 _PATTERNS = {'std': [STD], 'multi': [BRK, STD], 'derived': [USYY], 'loose': [LOOSE], 'ampm': [AMPM],
-             'nosec': [NOSEC]}
+             'nosec': [NOSEC], 'subbrk': [BRK]}
 DATE_FORMAT = '%Y-%m-%d %H:%M:%S'
 
 
@@ -136,7 +144,7 @@ def fmt_ts(kind, dt, rng=None):
         return dt.strftime('%Y-%m-%d %Hh%M')
     if kind == 'derived':
         return dt.strftime('%m/%d/') + f"{dt.year % 100:02d}" + dt.strftime(' %H:%M:%S')
-    if kind == 'multi' and rng is not None and rng.random() < 0.5:
+    if kind == 'subbrk' or (kind == 'multi' and rng is not None and rng.random() < 0.5):
         return dt.strftime('[%d/%m/%Y %H:%M:%S]')
     sep = ' '
     if rng is not None and rng.random() < 0.15:
